@@ -485,11 +485,129 @@ def part_d(ctx):
     return lines, expect
 
 
+def part_a2(ctx):
+    """large arrays (> 2**16 elements): twins that differ at a single position / in the position
+    of a NaN; spec oracle only (too large for the line protocol)"""
+    common.import_dclab()
+    from dclab import cached, downsampling, kde_methods
+    cached.Cache.clear_cache()
+    rs = np.random.RandomState(ctx.rng.randrange(2**31))
+    n = ctx.rng.choice([70001, 2**16 + 1, 100000])
+    x = rs.rand(n) * 100
+    y = rs.rand(n)
+    twins = [(x, y)]
+    for _ in range(3):
+        x2 = x.copy()
+        y2 = y.copy()
+        kind = ctx.rng.choice(["nan-moved", "one-value", "swap"])
+        i, j = ctx.rng.sample(range(n // 2, n), 2)
+        if kind == "nan-moved":
+            xa = x.copy()
+            xa[i] = np.nan
+            x2[j] = np.nan
+            twins.append((xa, y))
+        elif kind == "one-value":
+            x2[i] += 1.0
+        else:
+            x2[i], x2[j] = x2[j], x2[i]
+        twins.append((x2, y2))
+    ds_obj = downsampling.downsample_grid
+    for rep in range(2):
+        for k, (a, b) in enumerate(twins):
+            for kw in ({"remove_invalid": True}, {"remove_invalid": True, "ret_idx": True}):
+                got = outcome(ds_obj, (a, b, 200), kw)
+                fresh = outcome(ds_obj.func, (a, b, 200), kw)
+                ctx.case(("A2", n, k, rep, tuple(kw)), nontrivial=True)
+                ctx.stat("big_array_calls")
+                if got != fresh:
+                    ctx.violation("spec", "memoised downsample_grid on arrays of "
+                                          f"{n} elements returned another call's result",
+                                  {"part": "A2", "n": int(n), "twin": k, "kw": kw})
+                    return
+    cached.Cache.clear_cache()
+
+
+def part_c2(ctx):
+    """cached feature arrays of hierarchy members across refreshes: after ANY ancestor change
+    followed by a refresh from the youngest member, every member's scalar arrays and summaries
+    equal those of a freshly built hierarchy (depth up to 4, equal-cardinality changes)"""
+    dclab = common.import_dclab()
+    n = 14
+    toks = list(range(n))
+    path = ctx.workdir / "c2.rtdc"
+    gen.make_rtdc(path, toks, feats=["deform", "area_um", "index"])
+
+    def build(kind, settings, depth):
+        if kind == "dict":
+            root = dclab.new_dataset({"deform": gen.rows("deform", toks),
+                                      "area_um": gen.rows("area_um", toks),
+                                      "index": np.arange(1, n + 1)})
+        else:
+            root = dclab.new_dataset(path)
+        chain = [root]
+        for lv in range(depth):
+            ds = chain[-1]
+            lo, hi = settings[lv]
+            ds.config["filtering"]["index min"] = lo
+            ds.config["filtering"]["index max"] = hi
+            ds.apply_filter()
+            chain.append(dclab.new_dataset(ds))
+        return chain
+
+    for h in range(ctx.n(10, 80)):
+        kind = ctx.rng.choice(["dict", "hdf5"])
+        depth = ctx.rng.randint(2, 4)
+        # index ranges in the coordinates of each level's own `index` feature (root numbering)
+        settings = [(1 + lv, n - lv) for lv in range(depth)]
+        chain = build(kind, settings, depth)
+        hist = []
+        bad = None
+        for step in range(ctx.rng.randint(2, 6)):
+            for ds in chain[1:]:          # fill the caches
+                try:
+                    ds["deform"][:]
+                    ds["deform"].min(), ds["deform"].max(), ds["deform"].mean()
+                except Exception:
+                    pass
+            lv = ctx.rng.randrange(depth)
+            lo, hi = settings[lv]
+            shift = ctx.rng.choice([-1, 1, 1, 2])       # same width: equal cardinality
+            settings[lv] = (lo + shift, hi + shift)
+            chain[lv].config["filtering"]["index min"] = settings[lv][0]
+            chain[lv].config["filtering"]["index max"] = settings[lv][1]
+            hist.append((lv, settings[lv]))
+            try:
+                chain[-1].rejuvenate()
+                fresh = build(kind, settings, depth)
+                for li in range(1, depth + 1):
+                    a, b = chain[li], fresh[li]
+                    if len(a) != len(b) or not np.array_equal(a["deform"][:], b["deform"][:]):
+                        bad = f"level {li}: cached 'deform' differs from a freshly built hierarchy"
+                    elif len(a) and (a["deform"].min() != b["deform"].min()
+                                     or a["deform"].max() != b["deform"].max()):
+                        bad = f"level {li}: cached min/max differ from a freshly built hierarchy"
+                    if bad:
+                        break
+            except Exception as e:  # noqa
+                bad = f"refresh raised {e!r}"[:160]
+            if bad:
+                break
+        ctx.case(("C2", kind, depth, tuple(hist)), nontrivial=depth >= 2)
+        ctx.stat("C2_histories")
+        if bad:
+            ctx.violation("spec", f"hierarchy ({kind} root, depth {depth}) after ancestor "
+                                  f"changes {hist}: {bad}",
+                          {"part": "C2", "kind": kind, "depth": depth, "history": hist})
+            break
+
+
 def run(ctx):
     la, ea = part_a(ctx)
     lb, eb = part_b(ctx)
     lc, ec = part_c(ctx)
     ld, ed = part_d(ctx)
+    part_a2(ctx)
+    part_c2(ctx)
     if not ctx.lean_ok:
         return
     lines, expect = ld + la + lb + lc, ed + ea + eb + ec
